@@ -5,11 +5,11 @@ characterisation of `higherPriority`.
 -/
 namespace ZV
 
-theorem bytesLt_irrefl : ∀ a : Bytes, bytesLt a a = false
+theorem bytesLt_irrefl_x : ∀ a : Bytes, bytesLt a a = false
   | [] => rfl
-  | x :: xs => by simp [bytesLt, bytesLt_irrefl xs]
+  | x :: xs => by simp [bytesLt, bytesLt_irrefl_x xs]
 
-theorem bytesLt_asymm : ∀ a b : Bytes, bytesLt a b = true → bytesLt b a = false
+theorem bytesLt_asymm_x : ∀ a b : Bytes, bytesLt a b = true → bytesLt b a = false
   | [], [] => by simp [bytesLt]
   | [], _ :: _ => by simp [bytesLt]
   | _ :: _, [] => by simp [bytesLt]
@@ -22,9 +22,9 @@ theorem bytesLt_asymm : ∀ a b : Bytes, bytesLt a b = true → bytesLt b a = fa
     · by_cases h2 : y < x
       · simp [h1, h2] at h
       · simp only [h1, h2, if_false] at h ⊢
-        exact bytesLt_asymm xs ys h
+        exact bytesLt_asymm_x xs ys h
 
-theorem bytesLt_trans : ∀ a b c : Bytes, bytesLt a b = true → bytesLt b c = true → bytesLt a c = true
+theorem bytesLt_trans_x : ∀ a b c : Bytes, bytesLt a b = true → bytesLt b c = true → bytesLt a c = true
   | [], [], _ => by simp [bytesLt]
   | [], _ :: _, [] => by simp [bytesLt]
   | [], _ :: _, _ :: _ => by simp [bytesLt]
@@ -51,9 +51,9 @@ theorem bytesLt_trans : ∀ a b c : Bytes, bytesLt a b = true → bytesLt b c = 
         · by_cases hzx : z < x
           · simp [hxz, hzx] at h2
           · simp only [hxz, hzx, if_false] at h2 ⊢
-            exact bytesLt_trans xs ys zs h1 h2
+            exact bytesLt_trans_x xs ys zs h1 h2
 
-theorem bytesLt_total : ∀ a b : Bytes, a ≠ b → bytesLt a b = true ∨ bytesLt b a = true
+theorem bytesLt_total_x : ∀ a b : Bytes, a ≠ b → bytesLt a b = true ∨ bytesLt b a = true
   | [], [] => by simp
   | [], _ :: _ => by simp [bytesLt]
   | _ :: _, [] => by simp [bytesLt]
@@ -67,7 +67,7 @@ theorem bytesLt_total : ∀ a b : Bytes, a ≠ b → bytesLt a b = true ∨ byte
       · simp only [hxy, hyx, if_false]
         have : x = y := by omega
         subst this
-        exact bytesLt_total xs ys (fun e => h (by rw [e]))
+        exact bytesLt_total_x xs ys (fun e => h (by rw [e]))
 
 namespace Pool
 
